@@ -9,6 +9,8 @@
 //! B  <joinfield>  A:<idx>:<facts> | R:<idx>:<facts> | L:v:<vs> (key = Debug text of the value) | L:t:<hex raw key>
 //!    obs: per L  `<got>/<ref>`  (lookup result / the harness' own list of added-and-not-removed indices), then size=<n>
 //! M  N:<node> | S:<facts> | E:<node#>:<facts#> | K (clear)        node := al,<field>,eq|ne,<hex literal>,<vs> | and,n,n | or,n,n | not,n
+//!        | co,<field>,<hex literal>,<vs>  (alpha `contains`)  | cnt,<field>,gt|lt|ge|le|eq|ne|xx|any,<int>  (UlMultiField count; `any` = no operator)
+//!        | mf,<field>,empty|nonempty|first|last|collect        (a literal that names a field of the fact set is a variable reference)
 //!    obs: d=<bits> m=<bits> h=<hits after each E> miss=<n> size=<n>     (d: evaluate_typed, m: MemoizedEvaluator::evaluate)
 //! C  +<name>:<e|d>:<acts> | -<name> | ?<hex goal> | X        acts := `-` | act;act…   act := S~f | M~obj~meth | R~obj | W~key | L
 //!    obs: per ?  `<got>/<scan>` (sorted find_candidates / sorted scan of the live rules for an enabled Set on the field),
@@ -260,6 +262,49 @@ fn dec_node(toks: &[&str], pos: &mut usize) -> Option<ReteUlNode> {
             *pos += 3;
             let _parsed = dec_val(toks, pos)?; // what the model is told the literal parses to
             Some(ReteUlNode::UlAlpha(AlphaNode { field, operator: op.to_string(), value: lit }))
+        }
+        "co" => {
+            let field = toks.get(*pos)?.to_string();
+            let lit = unhex(toks.get(*pos + 1)?)?;
+            *pos += 2;
+            let _parsed = dec_val(toks, pos)?;
+            Some(ReteUlNode::UlAlpha(AlphaNode { field, operator: "contains".to_string(), value: lit }))
+        }
+        "cnt" => {
+            let field = toks.get(*pos)?.to_string();
+            let op = match *toks.get(*pos + 1)? {
+                "gt" => Some(">"),
+                "lt" => Some("<"),
+                "ge" => Some(">="),
+                "le" => Some("<="),
+                "eq" => Some("=="),
+                "ne" => Some("!="),
+                "xx" => Some("~"),
+                "any" => None,
+                _ => return None,
+            };
+            let k: i64 = toks.get(*pos + 2)?.parse().ok()?;
+            *pos += 3;
+            Some(ReteUlNode::UlMultiField {
+                field,
+                operation: "count".to_string(),
+                value: None,
+                operator: op.map(|o| o.to_string()),
+                compare_value: op.map(|_| k.to_string()),
+            })
+        }
+        "mf" => {
+            let field = toks.get(*pos)?.to_string();
+            let operation = match *toks.get(*pos + 1)? {
+                "empty" => "empty",
+                "nonempty" => "not_empty",
+                "first" => "first",
+                "last" => "last",
+                "collect" => "collect",
+                _ => return None,
+            };
+            *pos += 2;
+            Some(ReteUlNode::UlMultiField { field, operation: operation.to_string(), value: None, operator: None, compare_value: None })
         }
         _ => None,
     }
@@ -602,6 +647,265 @@ fn gen_memo(rng: &mut Rng, pool: &[FactValue]) -> String {
     format!("M {}", toks.join(" "))
 }
 
+/// hot join key: 33..80 (one case in six: 81..140) entries under one key (a second key sometimes shares the index), indices added in
+/// ascending / descending / shuffled order and sometimes twice, then removals in random order with a lookup
+/// after each, re-adds under the old index (the entry moves to the end of the bucket) and second removals.
+/// A bucket is a `Vec<usize>` in insertion order: nothing may assume it is sorted or duplicate-free, whatever its length.
+fn gen_beta_hot(rng: &mut Rng, pool: &[FactValue]) -> String {
+    let k1 = rng.pick(pool).clone();
+    let mut k2 = rng.pick(pool).clone();
+    if format!("{:?}", k2) == format!("{:?}", k1) {
+        k2 = FactValue::String("other".to_string());
+    }
+    let two = rng.chance(1, 3);
+    let n1 = if rng.chance(1, 6) { rng.range(81, 140) } else { rng.range(33, 80) } as usize;
+    let n2 = if two { rng.range(1, 45) as usize } else { 0 };
+    // (key#, idx) of every add, in the order of the adds
+    let mut adds: Vec<(usize, usize)> = (0..n1).map(|i| (0usize, i)).collect();
+    for j in 0..n2 {
+        // the second key reuses part of the index range (same idx filed under two keys) or continues it
+        adds.push((1, if rng.chance(1, 2) { j } else { n1 + j }));
+    }
+    match rng.below(4) {
+        0 => {}                // ascending
+        1 => adds.reverse(),   // descending
+        _ => {
+            for i in (1..adds.len()).rev() {
+                let j = rng.below(i as u64 + 1) as usize;
+                adds.swap(i, j);
+            }
+        }
+    }
+    let fact = |k: usize, rng: &mut Rng| -> String {
+        let mut kvs = vec![("k".to_string(), if k == 0 { k1.clone() } else { k2.clone() })];
+        if rng.chance(1, 8) {
+            kvs.push(("z".to_string(), FactValue::Integer(rng.below(3) as i64)));
+        }
+        facts_str(&kvs)
+    };
+    let mut ops: Vec<String> = Vec::new();
+    let mut live: Vec<(usize, usize)> = Vec::new();
+    for &(k, i) in &adds {
+        ops.push(format!("A:{}:{}", i, fact(k, rng)));
+        live.push((k, i));
+        if rng.chance(1, 25) {
+            ops.push(format!("A:{}:{}", i, fact(k, rng))); // the same index twice
+        }
+    }
+    let look = |k: usize| format!("L:v:{}", val_str(if k == 0 { &k1 } else { &k2 }));
+    ops.push(look(0));
+    if two {
+        ops.push(look(1));
+    }
+    let rounds = rng.range(4, 14);
+    for _ in 0..rounds {
+        if live.is_empty() {
+            break;
+        }
+        let p = rng.below(live.len() as u64) as usize;
+        let (k, i) = live[p];
+        ops.push(format!("R:{}:{}", i, fact(k, rng)));
+        ops.push(look(k));
+        match rng.below(10) {
+            0..=4 => {
+                // retract + re-assert under the old index, then (mostly) retract again
+                ops.push(format!("A:{}:{}", i, fact(k, rng)));
+                if rng.chance(1, 3) {
+                    ops.push(look(k));
+                }
+                if rng.chance(3, 4) {
+                    ops.push(format!("R:{}:{}", i, fact(k, rng)));
+                    ops.push(look(k));
+                    live.remove(p);
+                }
+            }
+            5 => {
+                // removal under the other key / of an index never added: nothing may change
+                ops.push(format!("R:{}:{}", i, fact(1 - k, rng)));
+                ops.push(format!("R:{}:{}", n1 + n2 + 7, fact(k, rng)));
+                ops.push(look(k));
+                live.remove(p);
+            }
+            _ => {
+                live.remove(p);
+            }
+        }
+    }
+    if rng.chance(1, 4) {
+        // drain one key completely in random order: the key must disappear from the index (size)
+        let k = if two && rng.chance(1, 2) { 1 } else { 0 };
+        let mut rest: Vec<usize> = live.iter().filter(|e| e.0 == k).map(|e| e.1).collect();
+        for i in (1..rest.len()).rev() {
+            let j = rng.below(i as u64 + 1) as usize;
+            rest.swap(i, j);
+        }
+        for (c, i) in rest.iter().enumerate() {
+            ops.push(format!("R:{}:{}", i, fact(k, rng)));
+            if c % 16 == 0 {
+                ops.push(look(k));
+            }
+        }
+        ops.push(look(k));
+    }
+    format!("B k {}", ops.join(" "))
+}
+
+/// a random array whose pre-order sequence of "array opens" and leaves is exactly `toks` (`None` = array open,
+/// `Some(v)` = leaf): the top level takes everything, inner arrays take a random number of the following items.
+/// Different runs over the same `toks` give the same leaves under a different grouping.
+fn regroup(rng: &mut Rng, toks: &[Option<FactValue>]) -> FactValue {
+    fn item(rng: &mut Rng, toks: &[Option<FactValue>], pos: &mut usize) -> FactValue {
+        let t = toks[*pos].clone();
+        *pos += 1;
+        match t {
+            Some(v) => v,
+            None => {
+                let mut xs = Vec::new();
+                let k = rng.below(4);
+                for _ in 0..k {
+                    if *pos >= toks.len() {
+                        break;
+                    }
+                    xs.push(item(rng, toks, pos));
+                }
+                FactValue::Array(xs)
+            }
+        }
+    }
+    let mut pos = 0;
+    let mut xs = Vec::new();
+    while pos < toks.len() {
+        xs.push(item(rng, toks, &mut pos));
+    }
+    FactValue::Array(xs)
+}
+
+/// groups of nested arrays with the same leaves in the same order under different groupings
+fn nested_group(rng: &mut Rng) -> Vec<FactValue> {
+    use FactValue::*;
+    let a = |v: Vec<FactValue>| Array(v);
+    let i = |x: i64| Integer(x);
+    let fixed: Vec<Vec<FactValue>> = vec![
+        vec![a(vec![a(vec![i(1)]), i(2)]), a(vec![a(vec![i(1), i(2)])]), a(vec![a(vec![i(1)]), a(vec![i(2)])]), a(vec![i(1), i(2)])],
+        vec![a(vec![a(vec![]), a(vec![])]), a(vec![a(vec![a(vec![])])]), a(vec![a(vec![])]), a(vec![])],
+        vec![a(vec![a(vec![]), i(2)]), a(vec![a(vec![i(2)])]), a(vec![i(2)])],
+        vec![a(vec![i(1), a(vec![i(2), i(5)])]), a(vec![i(1), a(vec![i(2)]), i(5)]), a(vec![i(1), a(vec![]), i(2), i(5)])],
+        vec![
+            a(vec![a(vec![]), a(vec![a(vec![])])]),
+            a(vec![a(vec![a(vec![a(vec![])])])]),
+            a(vec![a(vec![a(vec![]), a(vec![])])]),
+            a(vec![a(vec![]), a(vec![]), a(vec![])]),
+            a(vec![a(vec![a(vec![])]), a(vec![])]),
+        ],
+        vec![a(vec![a(vec![String("a".into())]), Null]), a(vec![a(vec![String("a".into()), Null])]), a(vec![a(vec![]), String("a".into()), Null])],
+    ];
+    if rng.chance(1, 2) {
+        return rng.pick(&fixed).clone();
+    }
+    // random: 2..6 items after the outer open, at least one inner open, leaves from a small set
+    let leaves = [i(1), i(2), i(5), String("a".into()), Null, Boolean(true), Float(-0.0)];
+    let len = rng.range(2, 6) as usize;
+    let mut toks: Vec<Option<FactValue>> = (0..len).map(|_| if rng.chance(2, 5) { None } else { Some(rng.pick(&leaves).clone()) }).collect();
+    toks[0] = None;
+    let mut g: Vec<FactValue> = Vec::new();
+    for _ in 0..8 {
+        let v = regroup(rng, &toks);
+        if !g.iter().any(|w| val_str(w) == val_str(&v)) {
+            g.push(v);
+        }
+        if g.len() == 4 {
+            break;
+        }
+    }
+    g
+}
+
+/// a node whose verdict depends on how the array under `x` is grouped
+fn gen_nested_node(rng: &mut Rng, depth: u32) -> String {
+    if depth > 0 && rng.chance(1, 4) {
+        return match rng.below(3) {
+            0 => format!("and,{},{}", gen_nested_node(rng, depth - 1), gen_nested_node(rng, depth - 1)),
+            1 => format!("or,{},{}", gen_nested_node(rng, depth - 1), gen_nested_node(rng, depth - 1)),
+            _ => format!("not,{}", gen_nested_node(rng, depth - 1)),
+        };
+    }
+    use FactValue::*;
+    let lits: Vec<(&str, FactValue)> = vec![
+        ("1", Integer(1)), ("2", Integer(2)), ("5", Integer(5)), ("a", String("a".into())), ("null", Null), ("true", Boolean(true)),
+        ("[]", Array(vec![])), ("[1]", Array(vec![Integer(1)])), ("[2]", Array(vec![Integer(2)])), ("[1,2]", Array(vec![Integer(1), Integer(2)])),
+        ("-0.0", Float(-0.0)),
+    ];
+    let y = ("y", String("y".into())); // names the field y when the fact set has one (variable reference)
+    match rng.below(10) {
+        0..=2 => {
+            let op = if rng.chance(3, 4) { "eq" } else { "ne" };
+            format!("al,x,{},{},{}", op, hex(y.0), val_str(&y.1))
+        }
+        3 => {
+            let (t, v) = rng.pick(&lits).clone();
+            format!("al,x,{},{},{}", if rng.chance(1, 2) { "eq" } else { "ne" }, hex(t), val_str(&v))
+        }
+        4..=5 => {
+            let (t, v) = if rng.chance(1, 4) { y.clone() } else { rng.pick(&lits).clone() };
+            format!("co,x,{},{}", hex(t), val_str(&v))
+        }
+        6..=8 => {
+            let op = *rng.pick(&["eq", "eq", "ne", "gt", "lt", "ge", "le", "any", "xx"]);
+            format!("cnt,x,{},{}", op, if op == "any" { 0 } else { rng.below(4) as i64 })
+        }
+        _ => format!("mf,x,{}", rng.pick(&["empty", "nonempty", "first", "last", "collect"])),
+    }
+}
+
+/// memo stream over fact sets that differ only in the grouping of a nested array (plus flat controls)
+fn gen_memo_nested(rng: &mut Rng) -> String {
+    let g = nested_group(rng);
+    let nn = rng.range(1, 3) as usize;
+    let mut toks = Vec::new();
+    for _ in 0..nn {
+        toks.push(format!("N:{}", gen_nested_node(rng, 1)));
+    }
+    let mut sets: Vec<Vec<(String, FactValue)>> = Vec::new();
+    let with_y = rng.chance(2, 3);
+    let with_o = rng.chance(1, 2);
+    for v in &g {
+        let mut s = Vec::new();
+        if with_o {
+            s.push(("o".to_string(), FactValue::String("o-1".to_string())));
+        }
+        s.push(("x".to_string(), v.clone()));
+        if with_y {
+            // x against a fixed member of the group: equal for exactly one grouping
+            for w in g.iter().take(2) {
+                let mut s2 = s.clone();
+                s2.push(("y".to_string(), w.clone()));
+                sets.push(s2);
+            }
+        } else {
+            sets.push(s);
+        }
+    }
+    if rng.chance(1, 3) {
+        sets.push(vec![("x".to_string(), FactValue::Integer(2))]);
+        sets.push(vec![]);
+    }
+    for s in &sets {
+        toks.push(format!("S:{}", facts_str(s)));
+    }
+    let steps = rng.range(3, 12);
+    let mut node = rng.below(nn as u64);
+    for _ in 0..steps {
+        if rng.chance(1, 4) {
+            node = rng.below(nn as u64);
+        }
+        if rng.chance(1, 25) {
+            toks.push("K".to_string());
+        }
+        toks.push(format!("E:{}:{}", node, rng.below(sets.len() as u64)));
+    }
+    format!("M {}", toks.join(" "))
+}
+
 fn gen_rule(rng: &mut Rng) -> String {
     let names = ["R1", "R2", "R3"];
     let fields = ["A.x", "A.x", "A.y", "A.y", "B.x", "B.x", "A", "Ax.z", "A.x.q"];
@@ -684,6 +988,53 @@ fn gen_engine(rng: &mut Rng) -> String {
     format!("E {}", ops.join(" "))
 }
 
+/// systematic part of the nested-array family: for a few node shapes, every ordered pair (first, second) of
+/// groupings of the same leaves, evaluated first / second / first on one evaluator
+fn nested_systematic() -> Vec<String> {
+    use FactValue::*;
+    let a = |v: Vec<FactValue>| Array(v);
+    let i = |x: i64| Integer(x);
+    let groups: Vec<Vec<FactValue>> = vec![
+        vec![a(vec![a(vec![i(1)]), i(2)]), a(vec![a(vec![i(1), i(2)])]), a(vec![a(vec![i(1)]), a(vec![i(2)])])],
+        vec![a(vec![a(vec![]), a(vec![])]), a(vec![a(vec![a(vec![])])])],
+        vec![a(vec![a(vec![]), i(2)]), a(vec![a(vec![i(2)])])],
+        vec![a(vec![i(1), a(vec![i(2), i(5)])]), a(vec![i(1), a(vec![i(2)]), i(5)])],
+    ];
+    let ystr = val_str(&String("y".into()));
+    let nodes: Vec<std::string::String> = vec![
+        "cnt,x,eq,2".into(),
+        "cnt,x,ge,2".into(),
+        "not,cnt,x,eq,1".into(),
+        format!("co,x,{},{}", hex("2"), val_str(&i(2))),
+        format!("co,x,{},{}", hex("[]"), val_str(&a(vec![]))),
+        format!("al,x,eq,{},{}", hex("y"), ystr),
+        format!("co,x,{},{}", hex("y"), ystr),
+    ];
+    let mut out = Vec::new();
+    for g in &groups {
+        for (p, v) in g.iter().enumerate() {
+            for (q, w) in g.iter().enumerate() {
+                if p == q {
+                    continue;
+                }
+                for nd in &nodes {
+                    let y = match &g[0] {
+                        Array(xs) if nd.contains(&hex("y")) && nd.starts_with("co") => xs[0].clone(),
+                        other => other.clone(),
+                    };
+                    out.push(format!(
+                        "M N:{} S:{} S:{} E:0:0 E:0:1 E:0:0",
+                        nd,
+                        facts_str(&[("x".to_string(), v.clone()), ("y".to_string(), y.clone())]),
+                        facts_str(&[("x".to_string(), w.clone()), ("y".to_string(), y)])
+                    ));
+                }
+            }
+        }
+    }
+    out
+}
+
 /// every sequence of length 0..=k over `alphabet`
 fn all_seqs(alphabet: &[String], k: usize) -> Vec<Vec<String>> {
     let mut all: Vec<Vec<String>> = vec![vec![]];
@@ -762,11 +1113,17 @@ fn gen(rng: &mut Rng, n: usize, tier: &str) -> Vec<String> {
         out.push(match k % 10 {
             0..=2 => gen_alpha(rng, &pool),
             3..=4 => gen_beta(rng, &pool),
-            5..=6 => gen_memo(rng, &pool),
+            5..=6 => if rng.chance(1, 3) { gen_memo_nested(rng) } else { gen_memo(rng, &pool) },
             7..=8 => gen_concl(rng),
             _ => gen_engine(rng),
         });
     }
+    // hot join keys (buckets of 33..80 entries, out-of-order removals, re-adds)
+    for _ in 0..(n / 50).max(20) {
+        out.push(gen_beta_hot(rng, &pool));
+    }
+    // every ordered pair of every fixed nested-array group under count / contains / == other field
+    out.extend(nested_systematic());
     out
 }
 
